@@ -283,6 +283,15 @@ type decoded struct {
 	class string
 	value string
 	rest  int
+	late  func() string // canonical text, built only after the allocation has been measured
+}
+
+func (d *decoded) text() string {
+	if d.late != nil {
+		d.value = d.late()
+		d.late = nil
+	}
+	return d.value
 }
 
 func decodeKind(kind, d string, data []byte) (res decoded) {
@@ -307,43 +316,43 @@ func decodeKind(kind, d string, data []byte) (res decoded) {
 		if err != nil {
 			return fail(err)
 		}
-		return decoded{"Ok", "CT " + coqTablePtr(t), rd.Len()}
+		return decoded{class: "Ok", rest: rd.Len(), late: func() string { return "CT " + coqTablePtr(t) }}
 	case "method", "closeerr":
 		m, err := amqp.ReadMethod(rd, proto(d))
 		if err != nil {
 			return fail(err)
 		}
-		return decoded{"Ok", coqMethod(m), rd.Len()}
+		return decoded{class: "Ok", rest: rd.Len(), late: func() string { return coqMethod(m) }}
 	case "header":
 		h, err := amqp.ReadContentHeader(rd, proto(d))
 		if err != nil {
 			return fail(err)
 		}
-		return decoded{"Ok", "CH " + coqHeaderInner(h), rd.Len()}
+		return decoded{class: "Ok", rest: rd.Len(), late: func() string { return "CH " + coqHeaderInner(h) }}
 	case "frame":
 		f, err := amqp.ReadFrame(rd)
 		if err != nil {
 			return fail(err)
 		}
-		return decoded{"Ok", "CF " + coqFrameInner(f), rd.Len()}
+		return decoded{class: "Ok", rest: rd.Len(), late: func() string { return "CF " + coqFrameInner(f) }}
 	case "message":
 		m := &amqp.Message{}
 		if err := m.Unmarshal(data, proto(d)); err != nil {
 			return fail(err)
 		}
-		return decoded{"Ok", coqMessage(m), -1}
+		return decoded{class: "Ok", rest: -1, late: func() string { return coqMessage(m) }}
 	case "queue":
 		q := &queue.Queue{}
 		if err := q.Unmarshal(data, proto(d)); err != nil {
 			return fail(err)
 		}
-		return decoded{"Ok", fmt.Sprintf("CQ (mkQ %s %s)", coqH([]byte(q.GetName())), coqBool(q.IsAutoDelete())), -1}
+		return decoded{class: "Ok", value: fmt.Sprintf("CQ (mkQ %s %s)", coqH([]byte(q.GetName())), coqBool(q.IsAutoDelete())), rest: -1}
 	case "exchange":
 		e := &exchange.Exchange{}
 		if err := e.Unmarshal(data); err != nil {
 			return fail(err)
 		}
-		return decoded{"Ok", fmt.Sprintf("CE (mkE %s %d)", coqH([]byte(e.GetName())), e.ExType()), -1}
+		return decoded{class: "Ok", value: fmt.Sprintf("CE (mkE %s %d)", coqH([]byte(e.GetName())), e.ExType()), rest: -1}
 	case "binding":
 		b := &binding.Binding{}
 		err := b.Unmarshal(data, proto(d))
@@ -351,22 +360,24 @@ func decodeKind(kind, d string, data []byte) (res decoded) {
 			return fail(err)
 		}
 		topic := reflect.ValueOf(b).Elem().FieldByName("topic").Bool()
-		return decoded{"Ok", fmt.Sprintf("CB (mkB %s %s %s %s %s)", coqH([]byte(b.Queue)), coqH([]byte(b.Exchange)), coqH([]byte(b.RoutingKey)),
-			coqTablePtr(b.Arguments), coqBool(topic)), -1}
+		return decoded{class: "Ok", rest: -1, late: func() string {
+			return fmt.Sprintf("CB (mkB %s %s %s %s %s)", coqH([]byte(b.Queue)), coqH([]byte(b.Exchange)), coqH([]byte(b.RoutingKey)),
+				coqTablePtr(b.Arguments), coqBool(topic))
+		}}
 	case "shortstr":
 		s, err := amqp.ReadShortstr(rd)
 		if err != nil {
 			return fail(err)
 		}
-		return decoded{"Ok", "CS " + coqH([]byte(s)), rd.Len()}
+		return decoded{class: "Ok", value: "CS " + coqH([]byte(s)), rest: rd.Len()}
 	case "longstr":
 		s, err := amqp.ReadLongstr(rd)
 		if err != nil {
 			return fail(err)
 		}
-		return decoded{"Ok", "CS " + coqH(s), rd.Len()}
+		return decoded{class: "Ok", value: "CS " + coqH(s), rest: rd.Len()}
 	}
-	return decoded{"Err", "-:unknown kind", -1}
+	return decoded{class: "Err", value: "-:unknown kind", rest: -1}
 }
 
 func decodeMeasured(kind, d string, data []byte) (decoded, uint64) {
@@ -580,7 +591,7 @@ func eCase(seed uint64, idx int) string {
 	godec := "-"
 	if raw != nil {
 		res := decodeKind(kind, d, raw)
-		godec = res.class + " " + res.value + fmt.Sprintf(" rest=%d", res.rest)
+		godec = res.class + " " + res.text() + fmt.Sprintf(" rest=%d", res.rest)
 	}
 	p, e := 0, 0
 	if g.producible {
@@ -594,7 +605,7 @@ func eCase(seed uint64, idx int) string {
 
 func dLine(idx int, kind, d string, data []byte, mut string) string {
 	res, alloc := decodeMeasured(kind, d, data)
-	return fmt.Sprintf("D\t%d\t%s\t%s\t%s\t%s\t%s\t%d\t%d\t%s", idx, kind, d, hex.EncodeToString(data), res.class, res.value, res.rest, alloc, mut)
+	return fmt.Sprintf("D\t%d\t%s\t%s\t%s\t%s\t%s\t%d\t%d\t%s", idx, kind, d, hex.EncodeToString(data), res.class, res.text(), res.rest, alloc, mut)
 }
 
 func dCase(seed uint64, idx int, maxlen uint32) string {
